@@ -221,7 +221,7 @@ def install(R):
             o = new_estimator(E, est.fields.get("$name", "est") + "_clone", est.fields["$class"],
                               est.fields["$methods"], False, est.fields["$params"], est.fields["$bases"])
             o.fields["$clone_of"] = est
-            for k in ("$width_predict_proba", "$width_transform", "$width_decision_function"):
+            for k in ("$width_predict_proba", "$width_transform", "$width_decision_function", "$fitted_attrs", "$fit_params"):
                 if k in est.fields:
                     o.fields[k] = est.fields[k]
             E.trace.append(dict(op="clone", obj=est, result=o))
@@ -283,6 +283,16 @@ def install(R):
             if key not in cache:
                 cache[key] = NdArr.from_fn("coef", (d,), "real", lambda j: coefF(st, j))
             return cache[key]
+        if attr == "classes_":
+            # two arbitrary distinct class labels (ghost label set used by set(...))
+            cache = base.fields.setdefault("$attr_cache", {})
+            if "classes_" not in cache:
+                arr = NdArr.fresh("classes", (2,), "int")
+                l0, l1 = arr.get(0), arr.get(1)
+                E.assume(l0 < l1)
+                arr.cell.labels = [l0, l1]
+                cache["classes_"] = arr
+            return cache["classes_"]
         raise Unsupported("fitted attribute %s of an opaque estimator" % attr)
     R.fitted_attr = fitted_attr
 
@@ -698,8 +708,97 @@ def install(R):
         E.trace.append(dict(op="randint", low=low, high=high, size=size, result=arr, rng="Global"))
         return arr
 
+    # ------------------------------------------------------------------ boolean-mask gather / scatter (ghost rank / count)
+    def mask_info(E, mask):
+        """ghost symbols of one boolean mask: count K, rank: row -> position, unrank: position -> row"""
+        key = ("mask", mask.cell.term.get_id(), tuple(map(repr, mask.imap)), tuple(map(repr, mask.shape)))
+        cache = E.ps.setdefault("masks", {})
+        if key in cache:
+            return cache[key]
+        fm = mask.snapshot()
+        n = z(mask.shape[0])
+        K = z3.Int(fresh_name("count"))
+        rank = z3.Function(fresh_name("rank"), z3.IntSort(), z3.IntSort())
+        unrank = z3.Function(fresh_name("unrank"), z3.IntSort(), z3.IntSort())
+        r, j = z3.Int(fresh_name("mr")), z3.Int(fresh_name("mj"))
+        inb = lambda v: z3.And(v >= 0, v < n)
+        E.axiom(K >= 0)
+        E.axiom(K <= n)
+        E.axiom(z3.ForAll([r], z3.Implies(z3.And(inb(r), fm.get(r)), z3.And(rank(r) >= 0, rank(r) < K, unrank(rank(r)) == r)),
+                          patterns=[rank(r)]))
+        E.axiom(z3.ForAll([j], z3.Implies(z3.And(j >= 0, j < K), z3.And(inb(unrank(j)), fm.get(unrank(j)), rank(unrank(j)) == j)),
+                          patterns=[unrank(j)]))
+        E.used_lemmas.add("mask_rank: numpy boolean-mask selection keeps the selected rows in order (rank/unrank bijection, count)")
+        cache[key] = (fm, n, K, rank, unrank)
+        return cache[key]
+    R.mask_info = mask_info
+
+    def mask_select(E, arr, mask, node=None):
+        from .npmodel import shapes_equal
+        if mask.ndim != 1:
+            raise Unsupported("mask rank %d" % mask.ndim)
+        shapes_equal(E, (arr.shape[0],), (mask.shape[0],), node, "mask-length")
+        fm, n, K, rank, unrank = mask_info(E, mask)
+        fa = arr.snapshot()
+        if arr.ndim == 1:
+            out = NdArr.from_fn("sel", (K,), arr.kind, lambda j: fa.get(unrank(j)))
+        elif arr.ndim == 2:
+            out = NdArr.from_fn("sel", (K, arr.shape[1]), arr.kind, lambda j, c: fa.get(unrank(j), c))
+            # rows of the selection are the selected rows (row extensionality, instance of the sel definition)
+            r = z3.Int(fresh_name("sr"))
+            E.axiom(z3.ForAll([r], z3.Implies(z3.And(r >= 0, r < n, fm.get(r)), row_of(E, out, rank(r)) == row_of(E, fa, r)),
+                              patterns=[rank(r)]))
+            j = z3.Int(fresh_name("sj"))
+            E.axiom(z3.ForAll([j], z3.Implies(z3.And(j >= 0, j < K), row_of(E, out, j) == row_of(E, fa, unrank(j))),
+                              patterns=[unrank(j)]))
+        else:
+            raise Unsupported("mask select rank %d" % arr.ndim)
+        out.cell.sel_of = (arr, mask)
+        return out
+    R.mask_select = mask_select
+
+    def fancy_set(E, arr, idx, val, node):
+        if isinstance(idx, NdArr) and idx.kind == "bool" and idx.ndim == 1 and isinstance(val, NdArr):
+            from .npmodel import shapes_equal
+            shapes_equal(E, (arr.shape[0],), (idx.shape[0],), node, "mask-length")
+            fm, n, K, rank, unrank = mask_info(E, idx)
+            shapes_equal(E, (K,) + tuple(arr.shape[1:]), tuple(val.shape), node, "mask-assign-shape")
+            old, fv = arr.snapshot(), val.snapshot()
+            arr.assign_fn(lambda r, *c: z3.If(fm.get(r), fv.get(rank(r), *c), old.get(r, *c)))
+            return None
+        if isinstance(idx, NdArr) and idx.kind == "bool" and idx.ndim == 1 and not isinstance(val, NdArr):
+            from .npmodel import cast
+            old, fm = arr.snapshot(), idx.snapshot()
+            arr.assign_fn(lambda r, *c: z3.If(fm.get(r), cast(val, arr.kind), old.get(r, *c)))
+            return None
+        raise Unsupported("fancy store %r" % (idx,))
+    R.fancy_set = fancy_set
+
+    def np_any(E, a):
+        if isinstance(a, NdArr) and a.ndim == 1 and a.kind == "bool":
+            fm, n, K, rank, unrank = mask_info(E, a)
+            return K > 0
+        raise Unsupported("any(%r)" % (a,))
+    R.np_any = np_any
+    R.fns["numpy.any"] = lambda E, a, **kw: np_any(E, a)
+
+    def np_all(E, a):
+        if isinstance(a, NdArr) and a.ndim == 1 and a.kind == "bool":
+            fm, n, K, rank, unrank = mask_info(E, a)
+            r = z3.Int(fresh_name("ar"))
+            # all(mask) <=> every row selected (count = n); stated both ways for the solver
+            E.axiom(z3.Implies(K == n, z3.ForAll([r], z3.Implies(z3.And(r >= 0, r < n), fm.get(r)))))
+            E.axiom(z3.Implies(z3.ForAll([r], z3.Implies(z3.And(r >= 0, r < n), fm.get(r))), K == n))
+            return K == n
+        raise Unsupported("all(%r)" % (a,))
+    R.np_all = np_all
+    R.fns["numpy.all"] = lambda E, a, **kw: np_all(E, a)
+
     # ------------------------------------------------------------------ integer-array indexing
     def fancy_get(E, arr, idx, node):
+        if isinstance(idx, tuple) and len(idx) == 2 and isinstance(idx[0], NdArr) and idx[0].kind == "bool" and isinstance(idx[1], slice) \
+                and idx[1] == slice(None, None, None):
+            return mask_select(E, arr, idx[0], node)
         if isinstance(idx, tuple) and not (len(idx) == 2 and isinstance(idx[1], (tuple, list))):
             if len(idx) == 2 and isinstance(idx[0], NdArr) and isinstance(idx[1], slice) and \
                     idx[1].start is None and idx[1].stop is None and idx[1].step is None:
